@@ -23,7 +23,7 @@ _CACHE = {}
 
 REQ_FORMS = ["{T}", "'{T}'"]
 OPT_FORMS = ["Optional[{T}]", "{T} | None", "Union[None, {T}]", "None | {T}", "'None | {T}'", "Optional['{T}']", "'{T} | None'", "'Optional[{T}]'", "Union['{T}', None]"]
-LAYOUTS = ["kwonly", "poskw", "kwonly_first", "two", "method"]
+LAYOUTS = ["kwonly", "poskw", "kwonly_first", "two", "method", "two_rev"]
 
 
 def get(fk: str, t: str, n: str, opt: bool, form: int, layout: int):
@@ -45,6 +45,10 @@ def get(fk: str, t: str, n: str, opt: bool, form: int, layout: int):
         src = f"@inject\n{a}def {name}(*, r: {ann} = {res}, b=2):\n    BODY.append({name!r}); return (b, r, None)\ncall = lambda x: {name}(b=x)\n"
     elif lay == "two":
         src = (f"@inject\n{a}def {name}(a, *, r: {ann} = {res}, o: Optional[Other] = resource('nope')):\n"
+               f"    BODY.append({name!r}); return (a, r, o)\ncall = lambda x: {name}(x)\n")
+    elif lay == "two_rev":
+        # an optional marker BEFORE the one under test (whether a marker is optional is a matter of that marker alone)
+        src = (f"@inject\n{a}def {name}(a, *, o: Optional[Other] = resource('nope'), r: {ann} = {res}):\n"
                f"    BODY.append({name!r}); return (a, r, o)\ncall = lambda x: {name}(x)\n")
     else:
         src = (f"class C{name}:\n    @inject\n    {a}def m(self, a, *, r: {ann} = {res}):\n        BODY.append({name!r}); return (a, r, None)\n"
